@@ -146,7 +146,12 @@ func (e *SeqArrowExpr) Eval(ctx context.Context, local Scope) (_ Value, err erro
 				return nil, WrapContextErr(errors.Errorf(
 					"%s lhs must be an indexed type, not %s", e.op, ValueTypeAsString(value)), e, local)
 			}
-			attr := t.Names().Without("@").Any()
+			rest := t.Names().Without("@")
+			if !rest.IsTrue() {
+				return nil, WrapContextErr(errors.Errorf(
+					"%s lhs must be an indexed type, not %s", e.op, ValueTypeAsString(value)), e, local)
+			}
+			attr := rest.Any()
 			item, _ := t.Get(attr)
 			newItem, err := call(at, item)
 			if err != nil {
